@@ -21,6 +21,8 @@ from .values import (G, TRUE, FALSE, g_and, g_or, SInt, SBool, SBV, SStr, SBytes
 from .program import IFunc, IMethod, IClass, Obj, IModule, PyModule
 
 MAX_UNROLL = 400
+import os as _os
+NAME_TERMS = _os.environ.get("SYMX_NAME_TERMS", "0") == "1"
 
 
 class Frame:
@@ -51,6 +53,7 @@ class Region:
 
     def __init__(self):
         self.excs = []  # (G absolute, exception instance)
+        self.live_ids = set()  # ids of guard atoms that only say "no exception was raised so far"
 
 
 class Closure:
@@ -79,6 +82,7 @@ class Interp:
         self.merge = False
         self.region = None
         self.merge_modules = set(merge_modules)
+        self.overrides = {}      # qualname -> stub(interp, *args) replacing an interpreted function (listed in the evidence)
         self.subst = {}          # id(live object) -> interpreted replacement
         self.native_ok = set()   # ids of live callables that may be called natively with concrete args
         self._absg_cache = None
@@ -100,6 +104,26 @@ class Interp:
         self._absg_cache = (f, self.g, a)
         return a
 
+    def sg(self, g=None):
+        """Guard for stores: the guard without the atoms that merely say that no exception has been
+        raised so far in this merge region (state after a raise inside a kernel is never observed)."""
+        g = self.absg() if g is None else g
+        r = self.region
+        if r is None or not r.live_ids or g is FALSE or not g.atoms:
+            return g
+        keep = [a for a in g.atoms if a.get_id() not in r.live_ids]
+        if len(keep) == len(g.atoms):
+            return g
+        return G(keep)
+
+    def mark_live(self, cond):
+        if self.region is None:
+            return
+        parts = []
+        V._flatten_and(cond, parts)
+        for a in parts:
+            self.region.live_ids.add(a.get_id())
+
     def resolve(self, v):
         """Guard-aware simplification of ite-records."""
         while isinstance(v, SInt) and v.ite is not None:
@@ -112,6 +136,31 @@ class Interp:
             else:
                 break
         return v
+
+    def name_value(self, v):
+        """Give a merged integer term a name (fresh variable + definitional equation): keeps the terms
+        the solver sees shallow."""
+        if NAME_TERMS and isinstance(v, SInt) and z3.is_app(v.e) and v.e.num_args() > 0 and not z3.is_const(v.e):
+            k = V.ivar("t!%d" % next(V._counter))
+            self.ctx.assume(k == v.e)
+            return SInt(k, v.lo, v.hi, v.ite, v.cases, v.dom)
+        if NAME_TERMS and isinstance(v, Struct):
+            return Struct(v.stype, {f: self.name_value(x) for f, x in v.fields.items()})
+        return v
+
+    def merge_typed(self, ctype, c, new, old, grec=None):
+        return self.name_value(self._merge_typed(ctype, c, new, old, grec))
+
+    def _merge_typed(self, ctype, c, new, old, grec=None):
+        """ite(c, new, old) for a C-typed location: unsigned 64-bit masks stay bit-vectors."""
+        if ctype is not None and isinstance(self.frame.module, IModule) and isinstance(new, (int, SBV)) and isinstance(old, (int, SBV)) \
+                and not isinstance(new, bool) and not isinstance(old, bool):
+            t = self.frame.module.types.parse(ctype)
+            if t.kind == "int" and self.frame.module.types.is_bv(t):
+                if isinstance(new, int) and isinstance(old, int) and new == old:
+                    return new
+                return V.mk_bv(z3.If(c, V.to_bv(new, t.bits), V.to_bv(old, t.bits)), t.bits, False)
+        return merge(c, new, old, grec)
 
     def oblige(self, cond, what, kind="safety"):
         """Record: under the current absolute guard, cond must hold."""
@@ -203,7 +252,13 @@ class Interp:
         m = getattr(self, "x_" + type(s).__name__, None)
         if m is None:
             raise Unsupported("statement %s (line %s)" % (type(s).__name__, getattr(s, "lineno", "?")))
-        m(s)
+        try:
+            m(s)
+        except (Unsupported, Inconclusive) as e:
+            if not getattr(e, "located", False):
+                e.located = True
+                e.args = ("%s [at %s line %s]" % (e.args[0] if e.args else "", "/".join(self.ctx.stack_depth[-3:]), getattr(s, "lineno", "?")),)
+            raise
 
     def x_Pass(self, s):
         pass
@@ -313,7 +368,11 @@ class Interp:
         gt = g_and(g0, c)
         ge = g_and(g0, neg(c))
         outs = []
+        def pure_raise(body):
+            return len(body) == 1 and isinstance(body[0], ast.Raise)
         if gt is not FALSE:
+            if pure_raise(s.body):
+                self.mark_live(neg(c))
             self.g = gt
             self.push_refine(s.test, True)
             try:
@@ -324,6 +383,8 @@ class Interp:
         else:
             g1 = FALSE
         if ge is not FALSE:
+            if s.orelse and pure_raise(s.orelse):
+                self.mark_live(c)
             self.g = ge
             self.push_refine(s.test, False)
             try:
@@ -448,7 +509,7 @@ class Interp:
                 else:
                     gb = g_and(g0, c)
                     exits.append(g_and(g0, neg(c)))
-                    if gb is not FALSE and n >= 2 and not self.ctx.feasible(g_and(self.frame.entry_abs, gb)):
+                    if gb is not FALSE and n >= 6 and n % 4 == 2 and not self.ctx.feasible(g_and(self.frame.entry_abs, gb)):
                         gb = FALSE
                 if gb is FALSE:
                     self.g = FALSE
@@ -604,6 +665,7 @@ class Interp:
         self.g = g_and(g0, neg(c))
         if self.g is not FALSE:
             self.do_raise(AssertionError("assert at line %s" % s.lineno))
+        self.mark_live(c)
         self.g = g_and(g0, c)
 
     def x_Try(self, s):
@@ -768,7 +830,7 @@ class Interp:
             v = self.coerce(v, ct, name)
         for ov in f.overlays:
             ov.pop(name, None)
-        g = self.g
+        g = self.sg(self.g)
         if g.is_true() or name not in f.env:
             f.env[name] = v
         else:
@@ -776,7 +838,7 @@ class Interp:
             if isinstance(old, Indeterminate):
                 f.env[name] = v
             else:
-                f.env[name] = merge(g.e, v, old, g)
+                f.env[name] = self.merge_typed(ct, g.e, v, old, g)
 
     def assign(self, t, v):
         if isinstance(t, ast.Name):
@@ -1024,7 +1086,7 @@ class Interp:
 
     def setattr(self, obj, name, v):
         obj = self.resolve(obj)
-        a = self.absg()
+        a = self.sg()
         if isinstance(obj, Obj):
             ct = obj.cls.all_cattrs().get(name)
             if ct is not None:
@@ -1037,7 +1099,7 @@ class Interp:
             if a.is_true() or name not in obj.attrs or isinstance(obj.attrs[name], Indeterminate):
                 obj.attrs[name] = v
             else:
-                obj.attrs[name] = merge(a.e, v, obj.attrs[name], a)
+                obj.attrs[name] = self.merge_typed(ct, a.e, v, obj.attrs[name], a)
             return
         if isinstance(obj, Struct):
             ct = self.frame.module.types.structs[obj.stype][name]
@@ -1047,7 +1109,7 @@ class Interp:
                 # a store under a guard into indeterminate memory: the old content is arbitrary anyway
                 obj.fields[name] = v if a.is_true() or not isinstance(old, Indeterminate) else merge(a.e, v, self.materialise(old, ct, self.frame.module), a)
             else:
-                obj.fields[name] = merge(a.e, v, old, a)
+                obj.fields[name] = self.merge_typed(ct, a.e, v, old, a)
             return
         if V.is_sym(obj) or isinstance(obj, (IClass, IFunc)):
             raise Unsupported("attribute store on %r" % (obj,))
@@ -1075,6 +1137,14 @@ class Interp:
             raise Unsupported("call of a union of callables")
         if isinstance(f, type):
             return self.instantiate_live(f, args, kwargs)
+        if inspect.isfunction(f) and id(f) not in self.native_ok:
+            ifn = self.prog.ifunc_of(f)
+            if ifn is not None:
+                return self.call_ifunc(ifn, args, kwargs)
+        if inspect.ismethod(f) and inspect.isfunction(f.__func__):
+            ifn = self.prog.ifunc_of(f.__func__, self.defining_class(type(f.__self__), f.__func__.__name__) if not isinstance(f.__self__, type) else f.__self__)
+            if ifn is not None:
+                return self.call_ifunc(ifn, [f.__self__] + list(args), kwargs)
         return self.models.call_native(self, f, args, kwargs)
 
     def bind_args(self, f, args, kwargs):
@@ -1105,6 +1175,9 @@ class Interp:
         return env, params
 
     def call_ifunc(self, f, args, kwargs):
+        ov = self.overrides.get(f.qualname)
+        if ov is not None:
+            return ov(self, *args, **kwargs)
         is_region_entry = False
         if not self.merge and f.module.name in self.merge_modules:
             is_region_entry = True
@@ -1161,7 +1234,9 @@ class Interp:
         self._absg_cache = None
         if self.region is not None and len(self.region.excs) > nexc:
             new = [g.e for g, _ in self.region.excs[nexc:]]
-            self.g = g_and(self.g, neg(z3.Or(*new)) if len(new) > 1 else neg(new[0]))
+            noexc = neg(z3.Or(*new)) if len(new) > 1 else neg(new[0])
+            self.mark_live(noexc)
+            self.g = g_and(self.g, noexc)
         rets = fr.rets
         if not rets:
             return None
